@@ -208,7 +208,7 @@ def _int_component(site, name, a, V, hist):
     return r.astype(np.int64)
 
 
-def _refused_call(obj, cache_of, V, site, h, counters):
+def _refused_call(obj, cache_of, V, site, h, counters, also=None):
     """A call the quantiser refuses (voltages=None raises at a refresh point and at any other) is not a call: the cached
     estimates are as before and -- checked by the calls that follow against the reference, which does not count it -- so is
     the refresh schedule.  Returns False when the history cannot be continued."""
@@ -219,6 +219,20 @@ def _refused_call(obj, cache_of, V, site, h, counters):
         counters['refused_calls'] = counters.get('refused_calls', 0) + 1
         if cache_of() != before:
             V(site, 'refused_call_changed_cache', 'quantize(None) raised but changed the cached estimates %r -> %r' % (before, cache_of()), h)
+            return False
+        if also is not None:
+            # a second refusal: admissible voltages with an inadmissible custom-deviation argument (a sequence of one value);
+            # if the library accepts it the history is simply not continued (what it then means is not specified)
+            what, call = also
+            try:
+                call()
+            except Exception:
+                counters['refused_calls'] += 1
+                if cache_of() != before:
+                    V(site, 'refused_call_changed_cache', '%s raised but changed the cached estimates %r -> %r' % (what, before, cache_of()), h)
+                    return False
+                return True
+            counters['refusal_not_refused'] = counters.get('refusal_not_refused', 0) + 1
             return False
         return True
     counters['refusal_not_refused'] = counters.get('refusal_not_refused', 0) + 1
@@ -356,7 +370,10 @@ def case_hist(c):
                 ta, tb = ops[op]
                 z = zs[op]
                 if c.get('refuse') and not _refused_call(obj, lambda: (_cache_tuple(obj.stats_cache_r), _cache_tuple(obj.stats_cache_i)),
-                                                         V, site, h, counters):
+                                                         V, site, h, counters,
+                                                         also=('quantize(z, custom_stds=[2.5])',
+                                                               lambda: obj.quantize(zs[(op + 1) % len(zs)],
+                                                                                    custom_stds=[2.5]))):
                     done[h] = FAIL
                     return None
                 plan_r, plan_i = part_r.advance(ta, cr), part_i.advance(tb, ci)
